@@ -592,6 +592,11 @@ func (self *Parser) assignExpression(start errors.Location, lhs ast.Expression) 
 		return ast.AssignExpression{}, err
 	}
 
+	// parentheses around the target do not matter: `(a) = 1` is `a = 1`
+	for lhs.Kind() == ast.GroupedExpressionKind {
+		lhs = lhs.(ast.GroupedExpression).Inner
+	}
+
 	switch lhs.Kind() {
 	case ast.IdentExpressionKind, ast.IndexExpressionKind, ast.MemberExpressionKind, ast.CastExpressionKind:
 		// do nothing, this is legal
